@@ -1,9 +1,58 @@
+import OpusModel.SilkCoreFrame
 import Driver.Util
-/-! Suite `silkcore` (line protocol, DESIGN.md §4): stub registered in Driver/Main.lean; the owner fills in `handle`. -/
+/-! Suite `silkcore` (property C03, slice SilkCore; line protocol DESIGN.md §4).
+
+    `frame|core fs nb lossCnt prevSignalType lagPrev LastGainIndex first_frame_after_reset prev_gain_Q16
+        sLPC_Q14_buf[16] prevNLSF_Q15[16] outBuf[480]
+        condCoding signalType quantOffsetType GainsIndices NLSFIndices NLSFInterpCoef_Q2 lagIndex contourIndex PERIndex
+        LTPIndex LTP_scaleIndex Seed pulses`
+    answer: `P <what silk_decode_parameters left> C <what silk_decode_core left>` and, for `frame`, ` F <outBuf, lagPrev after the
+    buffer update>`; `OOB` / `ABORT` when the model reaches that outcome. -/
 namespace Driver.SuiteSilkCore
+open Opus Opus.SilkCore Driver
+
+def paramsStr (p : ParamsOut) : String :=
+  s!"P g={intList p.ctrl.gainsQ16} a0={intList p.ctrl.pred0} a1={intList p.ctrl.pred1} ltp={intList p.ctrl.ltpCoef} " ++
+  s!"pl={intList p.ctrl.pitchL} sc={p.ctrl.ltpScaleQ14} lgi={p.lastGainIndex} nlsf={intList p.prevNlsf} ic={p.interp} per={p.perIndex}"
+
+def coreStr (fs nb : Nat) (c : CoreOut) : String :=
+  s!"C xq={intList c.xq} slpc={intList c.sLPC} ob={intList c.outBuf} exc={intList (c.excQ14.take (frameLen fs nb))} " ++
+  s!"pg={c.prevGainQ16} ltp={intList c.ltpCoef} pl={intList c.pitchL}"
+
+def parseArgs (a : List String) : Option (DecState × FrameIn) :=
+  match a with
+  | [fs, nb, lc, ps, lp, lgi, ffar, pg, slpc, pn, ob, cc, st, qo, gi, ni, ic, li, ci, per, lti, lsi, seed, pulses] => do
+    let s : DecState := {
+      fsKHz := ← parseNat fs, nbSubfr := ← parseNat nb, sLPC := ← parseIntList slpc, outBuf := ← parseIntList ob,
+      excQ14 := List.replicate Opus.Gen.SilkCoreTabs.szExcQ14 0, prevGainQ16 := ← parseInt pg, lagPrev := ← parseInt lp,
+      lastGainIndex := ← parseInt lgi, prevNlsf := ← parseIntList pn, firstFrameAfterReset := ← parseInt ffar,
+      prevSignalType := ← parseInt ps, lossCnt := ← parseInt lc }
+    let f : FrameIn := {
+      condCoding := ← parseInt cc, gainsIdx := ← parseIntList gi, nlsfIdx := ← parseIntList ni, interp := ← parseInt ic,
+      signalType := ← parseInt st, quantOffsetType := ← parseInt qo, lagIndex := ← parseInt li, contourIndex := ← parseInt ci,
+      perIndex := ← parseInt per, ltpIdx := ← parseIntList lti, ltpScaleIndex := ← parseInt lsi, seed := ← parseInt seed,
+      pulses := ← parseIntList pulses }
+    if (s.fsKHz = 8 ∨ s.fsKHz = 12 ∨ s.fsKHz = 16) ∧ (s.nbSubfr = 2 ∨ s.nbSubfr = 4) then some (s, f) else none
+  | _ => none
 
 def handle (args : List String) : String :=
   match args with
+  | "frame" :: a =>
+    match parseArgs a with
+    | some (s, f) =>
+      resStr (fun (o : FrameOut) =>
+        paramsStr o.params ++ " " ++ coreStr s.fsKHz s.nbSubfr o.core ++ s!" F ob={intList o.st.outBuf} lp={o.st.lagPrev}") (frameGood s f)
+    | none => "bad-op"
+  | "core" :: a =>
+    match parseArgs a with
+    | some (s, f) =>
+      resStr (fun (o : FrameOut) => paramsStr o.params ++ " " ++ coreStr s.fsKHz s.nbSubfr o.core) (frameGood s f)
+    | none => "bad-op"
+  /- diagnostics for the evidence (not compared): number of signed-overflow events (decode_core.c:193) the model counted -/
+  | "ub" :: a =>
+    match parseArgs a with
+    | some (s, f) => resStr (fun (o : FrameOut) => s!"ub={o.core.ub}") (frameGood s f)
+    | none => "bad-op"
   | _ => "bad-op"
 
 end Driver.SuiteSilkCore
